@@ -76,6 +76,7 @@ def tasks(tier, params):
     part = params.get('part')
     out = []
     names = ['q2_shared', 'an_ns_ptr', 'mx_srv', 'opt_and_ar', 'soa_minfo'] + (['rp_afsdb_rt', 'nocompress', 'cname_chain'] if tier == 'thorough' else [])
+    ptr_only = ['straddle', 'far']
     scs = dict(scenarios(tier))
     for n in names:
         if n not in scs:
@@ -83,6 +84,9 @@ def tasks(tier, params):
         if part in (None, 'writers'):
             out.append(('writers.' + n, {'part': 'writers', 'scenario': scs[n]}))
         if part in (None, 'pointers'):
+            out.append(('pointers.' + n, {'part': 'pointers', 'scenario': scs[n]}))
+    for n in ptr_only:
+        if part in (None, 'pointers') and n in scs:
             out.append(('pointers.' + n, {'part': 'pointers', 'scenario': scs[n]}))
     if part in (None, 'pointers') and tier != 'thorough':
         # the must-not-compress types are checked in both tiers
@@ -354,7 +358,7 @@ def walk_compressed(res, I, bs, sc):
                 return r
             rd_start = r + 10
             rdlen = (conc(r + 8) << 8) | conc(r + 9)
-            if tname not in ('NULL', 'NULLBIG', 'A', 'AAAA', 'TXT', 'HINFO', 'CAA'):
+            if tname not in ('NULL', 'NULLBIG', 'A', 'AAAA', 'TXT', 'HINFO', 'CAA') and not tname.startswith('NULL@'):
                 t = S.BY_NAME[tname]
                 p = rd_start
                 fields = t.fields if not t.wrapper else [('n', 'name')]
